@@ -16,6 +16,7 @@
 #     and delayed server responses in flight all the time: every request must complete, no channel
 #     error, exactly one renewal per token inside the window.
 import vf
+import sccorr_common as sc
 
 
 def body(run):
@@ -64,7 +65,7 @@ def body(run):
     for pol, m in old:
         cases.append({"n": len(cases), "mode": "oldtoken", "policy": pol, "secmode": m})
     run.log("TLC: %d states; %d lifetime rows, %d renewal runs, %d old-token responses" % (run.cov["states"], len(rows), len(runs), len(old)))
-    results = run.go_run(exe[0], [], cases=cases, timeout=run.pick(600, 2400))
+    results = run.go_run(exe[0], [], cases=cases, timeout=run.pick(600, 2400), env=sc.race_env())
     if len(results) < len(cases):
         raise vf.Inconclusive("harness returned %d results for %d cases" % (len(results), len(cases)))
     SLACK_MS = 400
